@@ -24,6 +24,8 @@ pub enum Op {
     AddSub { id: u32, gated: bool, reads: bool },
     /// add the *same* subscriber object (id) to store `other` as well (C19)
     AddSharedSub { id: u32 },
+    /// a subscriber of the current store that forwards each notification (action id + off) to store `to`
+    AddForwardSub { id: u32, to: usize, off: u32 },
     AddSelector { id: u32 },
     Subscribed { id: u32, cap: usize, pol: Pol, gated: bool, reads: bool },
     Unsub(u32),
@@ -168,8 +170,14 @@ fn exec(ctx: &Arc<Ctx>, si: usize, op: &Op) {
                 id: *id,
                 gate: if *gated { Some(ctx.gates[2]) } else { None },
                 read_from: if *reads { Some(Arc::downgrade(store)) } else { None },
+                forward_to: None,
             });
             ctx.shared_subs.lock().unwrap().insert(*id, sub.clone());
+            let s = add_subscriber(store, sub, *id);
+            ctx.subs.lock().unwrap().insert(*id, s);
+        }
+        Op::AddForwardSub { id, to, off } => {
+            let sub = Arc::new(ScriptSub { id: *id, gate: None, read_from: None, forward_to: Some((Arc::downgrade(&ctx.stores[*to]), *off)) });
             let s = add_subscriber(store, sub, *id);
             ctx.subs.lock().unwrap().insert(*id, s);
         }
@@ -192,6 +200,7 @@ fn exec(ctx: &Arc<Ctx>, si: usize, op: &Op) {
                 id: *id,
                 gate: if *gated { Some(ctx.gates[2]) } else { None },
                 read_from: if *reads { Some(Arc::downgrade(store)) } else { None },
+                forward_to: None,
             });
             let s = subscribed_with(store, *cap, *pol, sub, *id);
             ctx.subs.lock().unwrap().insert(*id, s);
